@@ -107,6 +107,17 @@ func (w *World) Observe(mask ObsMask) uint64 {
 		{ObsStat, o.stat, "C13"},
 		{ObsTrim, o.trim, "C15"},
 	}
+	if mask&ObsStat != 0 {
+		// a Stat before anything has been read (segments not loaded, index files possibly
+		// not rebuilt yet); the Stat judged below comes after the reads
+		if p := safely(func() {
+			if _, err := w.L.Stat(); err != nil {
+				w.failf("C13", "Stat before any read failed: %v", err)
+			}
+		}); p != "" {
+			w.failf("C13", "panic in Stat: %s", p)
+		}
+	}
 	for _, s := range steps {
 		if mask&s.m == 0 {
 			continue
